@@ -654,11 +654,11 @@ def check_record(ctx, R="C18.record"):
 
 
 def check(ctx):
-    check_symmetry(ctx)
-    check_fail_closed(ctx)
-    check_errors(ctx)
-    check_deterministic(ctx)
-    check_divergence(ctx)
-    check_streams(ctx)
-    check_record(ctx)
-    check_recorded(ctx)
+    ctx.run(check_symmetry)
+    ctx.run(check_fail_closed)
+    ctx.run(check_errors)
+    ctx.run(check_deterministic)
+    ctx.run(check_divergence)
+    ctx.run(check_streams)
+    ctx.run(check_record)
+    ctx.run(check_recorded)
